@@ -1185,7 +1185,7 @@ def run(ck):
     import time
     t0 = time.time()
     marks = {}
-    ck.build_proofs()
+    ck.build_proofs(extra_targets=["theories/Expand/SubstGenProofs.vo"])
     marks["build_proofs_s"] = round(time.time() - t0, 1)
     rng = random.Random(ck.seed * 7919 + 9)
     quick = ck.tier != "thorough"
